@@ -11,6 +11,15 @@ CHECKS = {
  "C07": dict(level="exploration", technique="property-based testing (rapid): same generator as C01, validity predicate over every diagnostic (independent go/scanner token table)",
    text="Every diagnostic produced over the generated programs is checked for a valid position inside the analysed file at a token/comment start, a sane fix range, and an artefact-free message.",
    note="go/scanner token starts are the reference; artefact list is fixed (%!, (PANIC=, <nil>, Bad*); artefacts that occur in the analysed source are accepted.", ref="4/C07"),
+ "C02": dict(level="exploration", technique="property-based testing (rapid): repeated-execution differential (long-lived set x4, fresh re-parse, fresh checker sets) with exact equality of ordered diagnostics",
+   text="Each generated program (incl. import-heavy files aimed at map-iterating emitters) is analysed repeatedly within one process by long-lived and fresh checker sets; ordered diagnostics incl. fixes must be identical. Go randomises map iteration per loop, so order dependence shows up within a few repetitions.",
+   note="In-process repetitions only in this check; cross-process equality is covered through the end-to-end checks (C08/C16) which compare binaries' output with in-process expectations.", ref="4/C02"),
+ "C03": dict(level="exploration", technique="model-based stateful testing (rapid): generated visit histories on a long-lived checker set vs. fresh-instance reference model",
+   text="Generated histories of (package,file) visits drive one long-lived checker set exactly like the CLI; after every visit each checker's diagnostics must equal those of a freshly constructed instance on the same file.",
+   note="Reference = fresh checker on the same AST objects; embedded-rule checkers are sampled per case (all 107 in 1 of 20 cases).", ref="4/C03"),
+ "C05": dict(level="exploration", technique="property-based testing (rapid): before/after structural fingerprint invariant per Check + order-permutation metamorphic relation",
+   text="A reflective fingerprint of the syntax tree (all fields, positions, comments, object links, node identity), a digest of types.Info, the shared context and the registry is compared around every single Check under a random checker order; results must equal registry order on a pristine re-parse.",
+   note="Fingerprint determinism is self-tested in every case; types.Info digest is order-independent over node identity.", ref="4/C05"),
 }
 
 NOT_YET = {}
